@@ -83,6 +83,22 @@ func evalC08(w *fw.W, s, _ string) {
 		w.Fail("wrong-context", fmt.Sprintf("IsSQLi returned %q but the first firing context has fingerprint %q", f, first))
 		return
 	}
+	// "is the fingerprint of the input under at least one parsing context": judged by the reference
+	// algorithm too, not only by the implementation's own per-context accessor
+	inRef := false
+	var refFPs []string
+	for _, m := range sqlModes {
+		rf := sqlRef().Context(s, refMode(m)).Fingerprint
+		refFPs = append(refFPs, rf)
+		if rf == f {
+			inRef = true
+		}
+	}
+	w.Traces(1)
+	if !inRef {
+		w.Fail("not-a-fingerprint-of-the-input", fmt.Sprintf("IsSQLi returned %q; the reference algorithm gives %q for the six readings of this input", f, refFPs))
+		return
+	}
 	if w.WantSample() {
 		w.Sample(map[string]any{"input": s, "fingerprint": f})
 	}
@@ -130,7 +146,7 @@ func init() {
 		QuickS:    60,
 		ThoroughS: 600,
 		Rule: "every string over the SQL byte / fragment / token-class alphabets up to the completed level and every fixture cut: false => empty fingerprint; true => 1..5 class characters, comment class only last, member of the blacklist (real look-up), " +
-			"and equal to the fingerprint of the first firing reachable context evaluated on a fresh state; non-trivial = verdict true; distinct_outcomes = distinct returned fingerprints",
+			"equal to the fingerprint of the first firing reachable context evaluated on a fresh state, and one of the fingerprints the reference algorithm (refsql) gives for the six readings of the input; non-trivial = verdict true; distinct_outcomes = distinct returned fingerprints",
 		Assumptions: []string{"per-context results come from the build-tagged accessor running sqliFingerprint+checkFingerprint on a fresh state"},
 		Setup: func(w *fw.W) error {
 			cuts = alpha.Cuts(fixtures(), "'\"`", 4096)
